@@ -403,6 +403,10 @@ def _(vm, a, ci):
     return It('flatten', a[0], None)
 
 
+@trait(('Iterator', 'flat_map'))
+def _(vm, a, ci): return It('flatten', It('map', a[0], a[1]), None)
+
+
 @trait(('Iterator', 'by_ref'))
 def _(vm, a, ci): return a[0]
 
